@@ -1,4 +1,5 @@
 import B6.Lemmas.OverlayWorld
+import B6.Lemmas.OverlayBfs
 /-!
 # C16 — Overlay worlds shadow the base consistently
 
@@ -13,14 +14,14 @@ serves `MutableOverlayWorld.FindFeatures`), mirroring the code after the repairs
                       appears (`overlay_refines_merge` is the same without sortedness: all sequences)
 * `each_once`         enumeration: every ID of the layered world exactly once, overlay version first
 * `lookup_shadow`, `has_shadow`, `location_shadow`   lookups = lookups in the shadowed feature set
-* `union_refs_partial` the by-ID unions (`FindReferences`, `FindRelationsByFeature`, …) = the referrers
-                      within the shadowed feature set — for layers that do not interleave along
-                      reference chains (`OW.independent`); outside that class:
-* `cross_layer_counterexample` (finding `layer_crossing`), and before the repairs:
-  `stale_relation_counterexample`, `location_fallthrough_counterexample`
+* `union_refs`         the reference queries (`FindReferences`, `FindRelationsByFeature`, …) after the closure
+                      repair = the referrers within the shadowed feature set, each once, current
+                      versions, terminating — ALL pairs of layers (chains may alternate, cycles)
+* before the repairs: `stale_relation_counterexample`, `cross_layer_counterexample` (the by-ID union,
+  exact only for `OW.independent` layers: `union_refs_partial`), `location_fallthrough_counterexample`
 -/
 namespace B6.Props.C16
-open B6.Model.OverlayWorld B6.Lemmas.OverlayMerge B6.Lemmas.OverlayWorld B6.Spec.Referrers
+open B6.Model.OverlayWorld B6.Lemmas.OverlayMerge B6.Lemmas.OverlayWorld B6.Lemmas.OverlayBfs B6.Spec.Referrers
 
 /-- **overlay_refines_merge.** For ALL base / overlay sequences and filters such that every overlay
 ID is in the filter (the filter is the overlay world itself, or `m.features`), `newOverlayFeatures`
@@ -85,18 +86,24 @@ theorem each_once (w : OW) (ho : (w.overlay.map (·.id)).Nodup) (hb : (w.base.ma
     ∀ f, f ∈ w.each ↔ (f ∈ w.overlay ∨ (f ∈ w.base ∧ w.overlay.has f.id = false)) :=
   ⟨each_nodup w ho hb, mem_each w⟩
 
-/-- the statement the property makes about the reference unions, for ALL pairs of layers -/
-def union_refs_statement : Prop :=
-  ∀ (w : OW) (id : Id) (typed : List Nat) (R : List Feat), w.findRefs id typed = some R →
-    ∀ s, (∃ f ∈ R, f.id = s) ↔ (ReachPlus (rl w.merged) id s ∧ typeOk typed s = true)
+/-- **union_refs.** `OverlayWorld.FindReferences` (and `FindRelationsByFeature`, `FindCollectionsByFeature`,
+`FindAreasByPoint`, which call it with their type) after fixes/C16-union-refs-closure.patch — for ALL
+pairs of layers with distinct IDs, whatever way reference chains alternate between them, cycles
+included: the query terminates and returns exactly the features that reference `id` directly or
+through a chain WITHIN THE SHADOWED FEATURE SET, of the requested types, each once, as their current
+versions. (`hlayers`: each layer's own `FindReferences` answers — C15 `find_refs_terminates`.) -/
+theorem union_refs (w : OW) (ho : (w.overlay.map (·.id)).Nodup) (hb : (w.base.map (·.id)).Nodup)
+    (hlayers : ∀ x, (w.stepCands x).isSome = true) (id : Id) (typed : List Nat) :
+    ∃ R, w.findRefs id typed = some R ∧ (R.map (·.id)).Nodup ∧ (∀ f ∈ R, f ∈ w.merged) ∧
+      ∀ s, (∃ f ∈ R, f.id = s) ↔ (ReachPlus (rl w.merged) id s ∧ typeOk typed s = true) :=
+  union_refs_full w ho hb hlayers id typed
 
-/-- **union_refs_partial.** The statement holds for layers that do not interleave along reference
-chains (`OW.independent`, the class the driver reports as finding `layer_crossing` when violated). -/
+/-- the by-ID union that the closure replaced was exact only for non-interleaving layers -/
 theorem union_refs_partial (w : OW) (hind : w.independent = true) (id : Id) (typed : List Nat) (R : List Feat)
-    (h : w.findRefs id typed = some R) :
+    (h : w.findRefsUnion id typed = some R) :
     (∀ s, (∃ f ∈ R, f.id = s) ↔ (ReachPlus (rl w.merged) id s ∧ typeOk typed s = true)) ∧
     (∀ f ∈ R, f ∈ w.merged) :=
-  union_refs w hind id typed R h
+  B6.Lemmas.OverlayWorld.union_refs w hind id typed R h
 
 /-! ### witnesses -/
 
@@ -115,7 +122,7 @@ version of relation 5 is returned for point 1 although the current relation 5 do
 after it nothing is. -/
 theorem stale_relation_counterexample :
     staleW.findRefsOld p1 [3] = some [⟨r5, "b", [p1], none⟩] ∧ staleW.specRefs p1 [3] = some [] ∧
-    staleW.findRefs p1 [3] = some [] := by decide
+    staleW.findRefsUnion p1 [3] = some [] ∧ staleW.findRefs p1 [3] = some [] := by decide
 
 example : staleW.independent = true := by decide
 
@@ -123,21 +130,17 @@ example : staleW.independent = true := by decide
 def crossW : OW :=
   { base := [⟨p1, "b", [], some 1⟩, ⟨r5, "b", [p1], none⟩], overlay := [⟨r6, "o", [r5], none⟩] }
 
-/-- **cross_layer_counterexample** (finding `layer_crossing`): relation 6 references point 1 through
-relation 5 of the other layer; the union of the layers' own answers misses it. -/
+/-- **cross_layer_counterexample** (the former finding `layer_crossing`): relation 6 references point 1
+through relation 5 of the other layer; the union of the layers' own answers missed it, the closure
+finds it. -/
 theorem cross_layer_counterexample :
     crossW.independent = false ∧
-    crossW.findRefs p1 [3] = some [⟨r5, "b", [p1], none⟩] ∧
-    crossW.specRefs p1 [3] = some [⟨r5, "b", [p1], none⟩, ⟨r6, "o", [r5], none⟩] := by decide
+    crossW.findRefsUnion p1 [3] = some [⟨r5, "b", [p1], none⟩] ∧
+    crossW.specRefs p1 [3] = some [⟨r5, "b", [p1], none⟩, ⟨r6, "o", [r5], none⟩] ∧
+    crossW.findRefs p1 [3] = some [⟨r5, "b", [p1], none⟩, ⟨r6, "o", [r5], none⟩] := by decide
 
-theorem union_refs_statement_false : ¬ union_refs_statement := by
-  intro h
-  have := (h crossW p1 [3] _ cross_layer_counterexample.2.1 r6).mpr
-    ⟨.step (.direct ⟨⟨r5, [p1]⟩, by decide, rfl, by decide⟩) ⟨⟨r6, [r5]⟩, by decide, rfl, by decide⟩, by decide⟩
-  obtain ⟨f, hf, he⟩ := this
-  simp only [List.mem_singleton] at hf
-  subst hf
-  exact absurd he (by decide)
+/-- non-vacuity of `union_refs`: its hypotheses hold for the crossing layers -/
+example : (crossW.overlay.map (·.id)).Nodup ∧ (crossW.base.map (·.id)).Nodup := ⟨by decide, by decide⟩
 
 /-- base point 1 at slot 1; the overlay's point 1 has no location -/
 def locW : OW := { base := [⟨p1, "b", [], some 1⟩], overlay := [⟨p1, "o", [], none⟩] }
